@@ -22,7 +22,7 @@ theorem TROk.mono {σ : String → Val K} {s s' : St} (h : Ext s s') (h' : TROk 
 /-- A computation whose successful runs only extend the tables and return a value satisfying P
 (whenever the final tables are interpreted as intended). -/
 def Good {α : Type} (σ : String → Val K) (m : M α) (P : α → Prop) : Prop :=
-  ∀ s a s', m s = (.ok a, s') → Ext s s' ∧ (TROk N σ s' → P a)
+  ∀ s res s', m s = (res, s') → Ext s s' ∧ (∀ a, res = .ok a → TROk N σ s' → P a)
 
 variable {N}
 variable {σ : String → Val K}
@@ -30,47 +30,51 @@ variable {σ : String → Val K}
 theorem Good.pure {α : Type} {a : α} {P : α → Prop} (h : P a) : Good N σ (Pure.pure a : M α) P := by
   intro s b s' hrun
   change M.pure a s = _ at hrun
-  simp only [M.pure, Prod.mk.injEq, Except.ok.injEq] at hrun
+  simp only [M.pure, Prod.mk.injEq] at hrun
   obtain ⟨rfl, rfl⟩ := hrun
-  exact ⟨Ext.refl _, fun _ => h⟩
+  refine ⟨Ext.refl _, fun a' ha _ => ?_⟩
+  simp only [Except.ok.injEq] at ha
+  exact ha ▸ h
 
 theorem Good.bind {α β : Type} {m : M α} {f : α → M β} {P : α → Prop} {R' : β → Prop}
     (hm : Good N σ m P) (hf : ∀ a, Good N σ (f a) (fun b => P a → R' b)) : Good N σ (m >>= f) R' := by
-  intro s b s' hrun
+  intro s res s' hrun
   change M.bind m f s = _ at hrun
   unfold M.bind at hrun
   split at hrun
   · rename_i a s1 hm1
-    obtain ⟨e1, p1⟩ := hm s a s1 hm1
-    obtain ⟨e2, p2⟩ := hf a s1 b s' hrun
-    exact ⟨e1.trans e2, fun h => p2 h (p1 (TROk.mono N e2 h))⟩
-  · simp at hrun
+    obtain ⟨e1, p1⟩ := hm s _ s1 hm1
+    obtain ⟨e2, p2⟩ := hf a s1 res s' hrun
+    exact ⟨e1.trans e2, fun b hb h => p2 b hb h (p1 a rfl (TROk.mono N e2 h))⟩
+  · rename_i e s1 hm1
+    simp only [Prod.mk.injEq] at hrun
+    obtain ⟨rfl, rfl⟩ := hrun
+    exact ⟨(hm s _ _ hm1).1, fun b hb => by simp at hb⟩
 
 theorem Good.fail {α : Type} {e : Err} {P : α → Prop} : Good N σ (failM e : M α) P := by
-  intro s b s' hrun
-  simp [failM] at hrun
+  intro s res s' hrun
+  simp only [failM, Prod.mk.injEq] at hrun
+  obtain ⟨rfl, rfl⟩ := hrun
+  exact ⟨Ext.refl _, fun b hb => by simp at hb⟩
 
 theorem Good.liftE {α : Type} {x : Except Err α} {P : α → Prop} (h : ∀ a, x = .ok a → P a) :
     Good N σ (liftE x) P := by
-  intro s b s' hrun
+  intro s res s' hrun
   simp only [Holpy.C06.liftE, Prod.mk.injEq] at hrun
-  obtain ⟨h1, rfl⟩ := hrun
-  exact ⟨Ext.refl _, fun _ => h b h1⟩
-
-theorem Good.weaken {α : Type} {m : M α} {P P' : α → Prop} (h : Good N σ m P) (hp : ∀ a, P a → P' a) :
-    Good N σ m P' := fun s a s' hrun => ⟨(h s a s' hrun).1, fun ht => hp a ((h s a s' hrun).2 ht)⟩
+  obtain ⟨rfl, rfl⟩ := hrun
+  exact ⟨Ext.refl _, fun b hb _ => h b hb⟩
 
 theorem Good.noteNat (x : String) (T : Ty) (e : Z) : Good N σ (noteNat x T e) (fun _ => True) := by
   intro s b s' hrun
   unfold Holpy.C06.noteNat at hrun
   split at hrun <;> simp only [Prod.mk.injEq] at hrun <;> obtain ⟨_, rfl⟩ := hrun <;>
-    exact ⟨fun _ _ h => h, fun _ => trivial⟩
+    exact ⟨fun _ _ h => h, fun _ _ _ => trivial⟩
 
 theorem Good.freshName (nm : String) : Good N σ (freshName nm) (fun _ => True) := by
   intro s b s' hrun
   simp only [Holpy.C06.freshName, Prod.mk.injEq] at hrun
   obtain ⟨_, rfl⟩ := hrun
-  exact ⟨fun _ _ h => h, fun _ => trivial⟩
+  exact ⟨fun _ _ h => h, fun _ _ _ => trivial⟩
 
 theorem lookup_append_some {β : Type} (k : String) (l l' : List (String × β)) (v : β)
     (h : lookup k l = some v) : lookup k (l ++ l') = some v := by
